@@ -18,9 +18,11 @@ for a in 1 2 3; do
   else suite=pass; break; fi
 done
 cp $d/demo_test.go $place/zz_seed_demo_test.go
-demo_with=$(cd $place && go test -vet=off -count=1 -timeout 300s -run 'Seed|seed|Demo|demo' . 2>&1 | tail -3 | tr '\n' ' ')
+tests=$(grep -o '^func Test[A-Za-z0-9_]*' $d/demo_test.go | sed 's/func //' | paste -sd'|')
+[ -z "$tests" ] && { echo "RESULT no test functions in demo"; exit 1; }
+demo_with=$(cd $place && go test -vet=off -count=1 -timeout 300s -run "^($tests)\$" . 2>&1 | tail -3 | tr '\n' ' ')
 git apply -R $d/patch.diff
-demo_without=$(cd $place && go test -vet=off -count=1 -timeout 300s -run 'Seed|seed|Demo|demo' . 2>&1 | tail -3 | tr '\n' ' ')
+demo_without=$(cd $place && go test -vet=off -count=1 -timeout 300s -run "^($tests)\$" . 2>&1 | tail -3 | tr '\n' ' ')
 rm -f $place/zz_seed_demo_test.go
 w=fail; echo "$demo_with" | grep -q "^ok\|	ok\| ok " && ! echo "$demo_with" | grep -q FAIL && w=pass
 wo=fail; echo "$demo_without" | grep -q "ok" && ! echo "$demo_without" | grep -q FAIL && wo=pass
